@@ -8,7 +8,9 @@ From PV Require Export Spec.C05Line.
 (* ---- version 5 entry formats (6.2.4.1): the forms the property's domain covers *)
 Inductive lform : Type :=
 | LF_string | LF_line_strp | LF_strp | LF_udata
-| LF_data1 | LF_data2 | LF_data4 | LF_data8 | LF_data16 | LF_block.
+| LF_data1 | LF_data2 | LF_data4 | LF_data8 | LF_data16 | LF_block
+| LF_strp_sup          (* DWARF 5: offset into the .debug_str of the supplementary object file (7.3.6) *)
+| LF_GNU_strp_alt.     (* its pre-DWARF 5 vendor spelling (dwz), same meaning *)
 
 (* DWARF 5 Table 7.6 *)
 Definition lform_code (f : lform) : Z :=
@@ -16,6 +18,7 @@ Definition lform_code (f : lform) : Z :=
   | LF_string => 0x08 | LF_line_strp => 0x1f | LF_strp => 0x0e | LF_udata => 0x0f
   | LF_data1 => 0x0b | LF_data2 => 0x05 | LF_data4 => 0x06 | LF_data8 => 0x07
   | LF_data16 => 0x1e | LF_block => 0x09
+  | LF_strp_sup => 0x1d | LF_GNU_strp_alt => 0x1f21
   end.
 
 (* DWARF 5 Table 7.27 plus the LLVM vendor codes: content type codes with a name *)
@@ -34,7 +37,9 @@ Inductive fval : Type :=
 | FV_udata (v : Z)
 | FV_data1 (v : Z) | FV_data2 (v : Z) | FV_data4 (v : Z) | FV_data8 (v : Z)
 | FV_data16 (bs : list Z)
-| FV_block (bs : list Z).
+| FV_block (bs : list Z)
+| FV_strp_sup (off : Z) (s : list Z)     (* offset into the supplementary file's .debug_str, where s is found *)
+| FV_GNU_strp_alt (off : Z) (s : list Z).
 
 Definition form_of (v : fval) : lform :=
   match v with
@@ -42,6 +47,7 @@ Definition form_of (v : fval) : lform :=
   | FV_udata _ => LF_udata | FV_data1 _ => LF_data1 | FV_data2 _ => LF_data2
   | FV_data4 _ => LF_data4 | FV_data8 _ => LF_data8 | FV_data16 _ => LF_data16
   | FV_block _ => LF_block
+  | FV_strp_sup _ _ => LF_strp_sup | FV_GNU_strp_alt _ _ => LF_GNU_strp_alt
   end.
 
 (* what a consumer sees in a field: a string, a number, a byte sequence, or nothing *)
@@ -50,7 +56,7 @@ Inductive dval : Type :=
 
 Definition meaning (v : fval) : dval :=
   match v with
-  | FV_string s | FV_line_strp _ s | FV_strp _ s => DBytes s
+  | FV_string s | FV_line_strp _ s | FV_strp _ s | FV_strp_sup _ s | FV_GNU_strp_alt _ s => DBytes s
   | FV_udata n | FV_data1 n | FV_data2 n | FV_data4 n | FV_data8 n => DInt n
   | FV_data16 bs | FV_block bs => DList bs
   end.
@@ -94,7 +100,7 @@ Definition enc_format (d : Z * lform) (e : list Z) : Prop :=
 Definition enc_fval (le is64 : bool) (v : fval) (e : list Z) : Prop :=
   match v with
   | FV_string s => no_nul s = true /\ e = cstring_encode s
-  | FV_line_strp off _ | FV_strp off _ =>
+  | FV_line_strp off _ | FV_strp off _ | FV_strp_sup off _ | FV_GNU_strp_alt off _ =>
       0 <= off < 2 ^ (8 * Z.of_nat (offsz is64)) /\ e = int_encode le (offsz is64) off
   | FV_udata n => uleb_valid e n
   | FV_data1 n => 0 <= n < 2 ^ 8 /\ e = int_encode le 1 n
@@ -115,10 +121,11 @@ Definition str_at (sec : list Z) (off : Z) (s : list Z) : Prop :=
   firstn (length s + 1) (skipn (Z.to_nat off) sec) = s ++ [0].
 
 (* the strings referenced by offset are where the header says they are *)
-Definition fval_refs_ok (line_str str : list Z) (v : fval) : Prop :=
+Definition fval_refs_ok (line_str str sup : list Z) (v : fval) : Prop :=
   match v with
   | FV_line_strp off s => str_at line_str off s
   | FV_strp off s => str_at str off s
+  | FV_strp_sup off s | FV_GNU_strp_alt off s => str_at sup off s
   | _ => True
   end.
 
@@ -178,10 +185,13 @@ Definition sizes_ok (is64 : bool) (unit_length header_length : Z) : bool :=
 
 (* the strings a value refers to by offset are present in the string sections of the file
    (None = the file has no such section); sections are shorter than 2^63 bytes *)
-Definition refs_present (line_str str : option (list Z)) (v : fval) : Prop :=
+Definition refs_present (line_str str sup : option (list Z)) (v : fval) : Prop :=
   match v with
   | FV_line_strp off s => exists sec, line_str = Some sec /\ str_at sec off s /\ zlen sec < 2 ^ 63
   | FV_strp off s => exists sec, str = Some sec /\ str_at sec off s /\ zlen sec < 2 ^ 63
+  | FV_strp_sup off s | FV_GNU_strp_alt off s =>
+      (* sup = the .debug_str of the supplementary object file the consumer was given *)
+      exists sec, sup = Some sec /\ str_at sec off s /\ zlen sec < 2 ^ 63
   | _ => True
   end.
 
@@ -280,7 +290,7 @@ Definition encode_format (k : nat) (d : Z * lform) : list Z :=
 Definition encode_fval (le is64 : bool) (k : nat) (v : fval) : list Z :=
   match v with
   | FV_string s => cstring_encode s
-  | FV_line_strp off _ | FV_strp off _ => int_encode le (offsz is64) off
+  | FV_line_strp off _ | FV_strp off _ | FV_strp_sup off _ | FV_GNU_strp_alt off _ => int_encode le (offsz is64) off
   | FV_udata n => uleb_enc n k
   | FV_data1 n => int_encode le 1 n
   | FV_data2 n => int_encode le 2 n
@@ -322,7 +332,7 @@ Definition header_length_of (le : bool) (k : nat) (h : lheader) : Z := zlen (enc
 Definition wf_fval (is64 : bool) (v : fval) : bool :=
   match v with
   | FV_string s => no_nul s && all_bytes s
-  | FV_line_strp off s | FV_strp off s =>
+  | FV_line_strp off s | FV_strp off s | FV_strp_sup off s | FV_GNU_strp_alt off s =>
       (0 <=? off) && (off <? 2 ^ (8 * Z.of_nat (offsz is64))) && no_nul s && all_bytes s
   | FV_udata n => 0 <=? n
   | FV_data1 n => (0 <=? n) && (n <? 2 ^ 8)
@@ -349,15 +359,16 @@ Fixpoint list_eqb (a b : list Z) : bool :=
   end.
 Definition str_at_b (sec : list Z) (off : Z) (s : list Z) : bool :=
   (0 <=? off) && no_nul s && list_eqb (firstn (length s + 1) (skipn (Z.to_nat off) sec)) (s ++ [0]).
-Definition fval_refs_ok_b (line_str str : list Z) (v : fval) : bool :=
+Definition fval_refs_ok_b (line_str str sup : list Z) (v : fval) : bool :=
   match v with
   | FV_line_strp off s => str_at_b line_str off s
   | FV_strp off s => str_at_b str off s
+  | FV_strp_sup off s | FV_GNU_strp_alt off s => str_at_b sup off s
   | _ => true
   end.
-Definition header_refs_ok_b (line_str str : list Z) (h : lheader) : bool :=
-  forallb (forallb (fval_refs_ok_b line_str str)) (h_dirs h) &&
-  forallb (forallb (fval_refs_ok_b line_str str)) (h_file_names h).
+Definition header_refs_ok_b (line_str str sup : list Z) (h : lheader) : bool :=
+  forallb (forallb (fval_refs_ok_b line_str str sup)) (h_dirs h) &&
+  forallb (forallb (fval_refs_ok_b line_str str sup)) (h_file_names h).
 
 (* ------------------------------------------------------------------ the standard's numbering *)
 (* DWARF 5 Table 7.27 (line number header entry format names) plus the two LLVM vendor codes *)
